@@ -34,6 +34,7 @@ TBeginWith == IsEvent("begin") /\ Ev.new_inputs # <<>> /\ Ev.cleanup /\ Len(Ev.f
                             memo |-> IF Ev.cache THEN Memo \cup (IF Cached THEN {<<e[1], KwOfElem(e)>> : e \in done} ELSE {}) ELSE {}],
                            Ev.new_inputs)
               /\ exc' = NoExc
+TReplace == IsEvent("replace") /\ Replace(FByName(Ev.f), Ev.func) /\ UNCHANGED exc
 (* C06 PartExact: what is completely stored now is exactly what the model says (earlier parts + this selection) *)
 TStored == IsEvent("stored") /\ phase = "idle" /\ UNCHANGED mvars /\ UNCHANGED exc
            /\ StoredFromDisk({<<Ev.disk[k][1], Ev.disk[k][2]>> : k \in DOMAIN Ev.disk}) = stored
@@ -85,7 +86,7 @@ TRejectChanged == IsEvent("reject") /\ phase = "idle" /\ ~Ev.cleanup
 
 TLearnersDone == IsEvent("ldone") /\ LearnersDone /\ UNCHANGED exc
 
-Next == TBeginWith \/ TLearnersDone \/ TRejectChanged \/ TStored \/ TLoad \/ TInterrupt \/ TBegin \/ TCall \/ TRet \/ TFail \/ TReturn \/ TRaise \/ TReject
+Next == TReplace \/ TBeginWith \/ TLearnersDone \/ TRejectChanged \/ TStored \/ TLoad \/ TInterrupt \/ TBegin \/ TCall \/ TRet \/ TFail \/ TReturn \/ TRaise \/ TReject
 Spec == Init /\ [][Next]_<<mvars, tid, l, exc>>
 
 Track == IF l > TLCGet(tid) THEN TLCSet(tid, l) ELSE TRUE
